@@ -3,7 +3,7 @@
 from __future__ import annotations
 
 # Third Party Imports
-from numpy import empty_like
+from numpy import concatenate, empty_like
 from scipy.linalg import norm
 
 # Local Imports
@@ -52,5 +52,10 @@ class TwoBody(Celestial):
             # Save state derivative for this state vector
             derivative[jj : jj + half : step] = state[jj + half :: step]
             derivative[jj + half :: step] = -1.0 * Earth.mu / (r_norm**3.0) * r_vector
+            # Apply an active finite thrust (scheduled finite burn/maneuver), like `SpecialPerturbations` does
+            if self.finite_thrust:
+                derivative[jj + half :: step] += self.finite_thrust(
+                    concatenate((r_vector, state[jj + half :: step])),
+                )[:3]
 
         return derivative
